@@ -279,7 +279,8 @@ type Summary struct {
 	Fn         *ssa.Function
 	Writes     map[WriteKey]*Witness
 	Unsync     map[WriteKey]*Witness // writes not under a mutex held in the same function (race frames)
-	Links      map[LinkKey]*Witness
+	Links      map[WriteKey]*SumOrg // (field, target object) -> what may be stored there
+	LinkWit    map[WriteKey]*Witness
 	Ret        SumOrg
 	SiteContent map[ssa.Value]map[string]*SumOrg // content of objects created during the call that stay reachable afterwards
 	Spawns     bool
@@ -288,7 +289,7 @@ type Summary struct {
 }
 
 func newSummary(fn *ssa.Function) *Summary {
-	return &Summary{Fn: fn, Writes: map[WriteKey]*Witness{}, Links: map[LinkKey]*Witness{}, SiteContent: map[ssa.Value]map[string]*SumOrg{}, Unknowns: map[string]*Witness{},
+	return &Summary{Fn: fn, Writes: map[WriteKey]*Witness{}, Links: map[WriteKey]*SumOrg{}, LinkWit: map[WriteKey]*Witness{}, SiteContent: map[ssa.Value]map[string]*SumOrg{}, Unknowns: map[string]*Witness{},
 		Unsync: map[WriteKey]*Witness{}}
 }
 
@@ -306,6 +307,7 @@ type FrameAnalysis struct {
 	active      map[ctxKey]bool
 	changed     bool
 	assumptions map[string]bool
+	visCache    map[*types.Package]map[*types.Package]bool
 	stable      map[ctxKey]bool // summaries that are final (a whole pass left them unchanged)
 	visited     map[ctxKey]bool
 }
@@ -557,12 +559,17 @@ func (st *fstate) addWrite(field string, base Org, w *Witness, locked bool) {
 // reach closes an origin under the content of fresh sites (and "anything
 // below" for parameters).
 func (st *fstate) reach(o Org) Org {
-	r := Org{Global: o.Global, Unknown: o.Unknown}
-	for p := range o.Par {
-		r, _ = joinOrg(r, parOrg(p.Idx, p.Path))
-		r, _ = joinOrg(r, parOrg(p.Idx, belowPath(p.Path)))
+	r := Org{Global: o.Global, Unknown: o.Unknown, Par: map[ParPath]bool{}, Sites: map[ssa.Value]bool{}}
+	addPar := func(p ParPath) {
+		if p.Path != "" && r.Par[ParPath{p.Idx, "*"}] {
+			return
+		}
+		r.Par[p] = true
+		r.Par[ParPath{p.Idx, belowPath(p.Path)}] = true
 	}
-	seen := map[ssa.Value]bool{}
+	for p := range o.Par {
+		addPar(p)
+	}
 	var work []ssa.Value
 	for s := range o.Sites {
 		work = append(work, s)
@@ -570,15 +577,13 @@ func (st *fstate) reach(o Org) Org {
 	for len(work) > 0 {
 		s := work[len(work)-1]
 		work = work[:len(work)-1]
-		if seen[s] {
+		if r.Sites[s] {
 			continue
 		}
-		seen[s] = true
-		r, _ = joinOrg(r, siteOrg(s))
+		r.Sites[s] = true
 		for _, c := range st.content[s] {
 			for p := range c.Par {
-				r, _ = joinOrg(r, parOrg(p.Idx, p.Path))
-				r, _ = joinOrg(r, parOrg(p.Idx, belowPath(p.Path)))
+				addPar(p)
 			}
 			if c.Global {
 				r.Global = true
@@ -587,11 +592,14 @@ func (st *fstate) reach(o Org) Org {
 				r.Unknown = true
 			}
 			for s2 := range c.Sites {
-				if !seen[s2] {
+				if !r.Sites[s2] {
 					work = append(work, s2)
 				}
 			}
 		}
+	}
+	if len(r.Par) > maxParEntries {
+		r.Par = widenPar(r.Par)
 	}
 	return r
 }
@@ -653,37 +661,26 @@ func (st *fstate) store(field string, base Org, val Org, pos token.Pos, sub *Wit
 		if len(val.Sites) > 0 {
 			st.escapeRoots = append(st.escapeRoots, Org{Sites: val.Sites})
 		}
-		var froms []Obj
-		for _, o := range objsOf(val.nonFresh()) {
-			froms = append(froms, o)
-		}
-		var sites []ssa.Value
-		for v := range val.Sites {
-			sites = append(sites, v)
-		}
-		sort.Slice(sites, func(i, j int) bool { return sites[i].Pos() < sites[j].Pos() || (sites[i].Pos() == sites[j].Pos() && sites[i].Name() < sites[j].Name()) })
-		for _, v := range sites {
-			froms = append(froms, Obj{Region: regSite, Site: v})
-		}
-		if len(froms) > 12 {
-			// too many distinct sources: keep regions and sites, drop the paths
-			seenR := map[int]bool{}
-			var fs []Obj
-			for _, f := range froms {
-				if f.Region == regSite {
-					fs = append(fs, f)
-					continue
-				}
-				if !seenR[f.Region] {
-					seenR[f.Region] = true
-					if f.Region >= 0 {
-						fs = append(fs, Obj{Region: f.Region}, Obj{Region: f.Region, Path: "*"})
-					} else {
-						fs = append(fs, f)
-					}
-				}
+		// what becomes reachable from the target: sources keep their region, their
+		// access path is dropped ("somewhere below parameter j") - links only feed
+		// reachability, precision matters on the target side
+		from := SumOrg{Global: val.Global, Unknown: val.Unknown}
+		for p := range val.Par {
+			pp := p
+			// keep short access paths (what a container already held), close longer ones
+			if comps := strings.Split(pp.Path, "/"); len(comps) > 3 {
+				pp.Path = strings.Join(comps[:3], "/") + "/*"
 			}
-			froms = fs
+			if from.Par == nil {
+				from.Par = map[ParPath]bool{}
+			}
+			from.Par[pp] = true
+		}
+		for v := range val.Sites {
+			if from.Sites == nil {
+				from.Sites = map[ssa.Value]bool{}
+			}
+			from.Sites[v] = true
 		}
 		tos := objsOf(nf)
 		if len(tos) > 8 {
@@ -701,14 +698,19 @@ func (st *fstate) store(field string, base Org, val Org, pos token.Pos, sub *Wit
 			}
 			tos = ts
 		}
-		for _, to := range tos {
-			for _, from := range froms {
-				k := LinkKey{field, to, from}
-				if old, ok := st.sum.Links[k]; !ok {
-					st.sum.Links[k] = w
+		if from.Fresh || len(from.Sites) > 0 || from.nonFresh() {
+			for _, to := range tos {
+				k := WriteKey{field, to}
+				cur := st.sum.Links[k]
+				if cur == nil {
+					cur = &SumOrg{}
+					st.sum.Links[k] = cur
+				}
+				if cur.join(from) {
 					st.fa.changed = true
-				} else if witnessLess(w, old) {
-					st.sum.Links[k] = w
+				}
+				if old, ok := st.sum.LinkWit[k]; !ok || witnessLess(w, old) {
+					st.sum.LinkWit[k] = w
 				}
 			}
 		}
@@ -747,7 +749,7 @@ func (fa *FrameAnalysis) analyse(fn *ssa.Function, ctx funcCtx, sum *Summary) {
 	if frameDebugHook != nil {
 		frameDebugHook(st)
 	}
-	if os.Getenv("GV_FRAME_STATS") != "" && (len(sum.Writes) > 200 || len(sum.Links) > 500) {
+	if os.Getenv("GV_FRAME_STATS") != "" && (len(sum.Writes) > 100 || len(sum.Links) > 100 || os.Getenv("GV_FRAME_STATS") == "all") {
 		fmt.Fprintf(os.Stderr, "stats %s ctx=%q writes=%d links=%d\n", funcKey(fn), ctx.key(), len(sum.Writes), len(sum.Links))
 	}
 	if dbg := os.Getenv("GV_FRAME_DUMP"); dbg != "" && strings.Contains(funcKey(fn), dbg) {
@@ -1213,11 +1215,81 @@ func (st *fstate) call(in ssa.CallInstruction, res ssa.Value, spawned bool) bool
 	return ch
 }
 
+// visiblePkgs: the packages a function's package can name (itself and its
+// transitive imports). Dynamic dispatch is resolved within them; targets in
+// packages that merely import this one can only arrive through values handed
+// in by such callers, which are bound by context where the caller is analysed.
+func (fa *FrameAnalysis) visiblePkgs(fn *ssa.Function) map[*types.Package]bool {
+	f := fn
+	for f != nil && f.Pkg == nil {
+		f = f.Parent()
+	}
+	var root *types.Package
+	if f != nil && f.Pkg != nil {
+		root = f.Pkg.Pkg
+	} else if fn.Object() != nil {
+		root = fn.Object().Pkg()
+	}
+	if root == nil {
+		return nil
+	}
+	if fa.visCache == nil {
+		fa.visCache = map[*types.Package]map[*types.Package]bool{}
+	}
+	if m, ok := fa.visCache[root]; ok {
+		return m
+	}
+	m := map[*types.Package]bool{}
+	var walk func(p *types.Package)
+	walk = func(p *types.Package) {
+		if m[p] {
+			return
+		}
+		m[p] = true
+		for _, q := range p.Imports() {
+			walk(q)
+		}
+	}
+	walk(root)
+	fa.visCache[root] = m
+	fa.assumptions["dynamic calls (interfaces, function values) are resolved by CHA within the caller's package and its imports"] = true
+	return m
+}
+
+func pkgOfFunc(fn *ssa.Function) *types.Package {
+	f := fn
+	for f != nil && f.Pkg == nil && f.Parent() != nil {
+		f = f.Parent()
+	}
+	if f != nil && f.Pkg != nil {
+		return f.Pkg.Pkg
+	}
+	if fn.Object() != nil {
+		return fn.Object().Pkg()
+	}
+	if r := fn.Signature.Recv(); r != nil {
+		t := r.Type()
+		if p, ok := t.(*types.Pointer); ok {
+			t = p.Elem()
+		}
+		if n, ok := t.(*types.Named); ok {
+			return n.Obj().Pkg()
+		}
+	}
+	return nil
+}
+
 func (st *fstate) chaTargets(in ssa.CallInstruction, args []ssa.Value) []target {
 	var ts []target
+	vis := st.fa.visiblePkgs(st.fn)
 	if node := st.fa.cg.Nodes[st.fn]; node != nil {
 		for _, e := range node.Out {
 			if e.Site == in && e.Callee.Func != nil {
+				if vis != nil && inRepo(e.Callee.Func) {
+					if p := pkgOfFunc(e.Callee.Func); p != nil && !vis[p] {
+						continue
+					}
+				}
 				ts = append(ts, target{fn: e.Callee.Func, args: args})
 			}
 		}
@@ -1263,6 +1335,14 @@ func (st *fstate) targets(in ssa.CallInstruction) []target {
 	}
 	if mc := st.closureOf(cm.Value, 0); mc != nil {
 		return []target{{fn: mc.Fn.(*ssa.Function), args: cm.Args, free: mc.Bindings}}
+	}
+	if cf := st.funcOfArg(cm.Value); cf != nil {
+		// known through the context: captured variables are the closure object's content
+		var fo []Org
+		for j := range cf.FreeVars {
+			fo = append(fo, st.loadFrom(st.org(cm.Value), fmt.Sprintf("closure#%d", j)))
+		}
+		return []target{{fn: cf, args: cm.Args, freeOrgs: fo}}
 	}
 	ts := st.chaTargets(in, cm.Args)
 	if len(ts) > 60 {
@@ -1324,6 +1404,34 @@ func (st *fstate) funcOfArg(a ssa.Value) *ssa.Function {
 				return st.ctx[j]
 			}
 		}
+	case *ssa.FreeVar:
+		for j, fv := range st.fn.FreeVars {
+			if fv == f && st.ctx[len(st.fn.Params)+j] != nil {
+				return st.ctx[len(st.fn.Params)+j]
+			}
+		}
+	case *ssa.UnOp:
+		if f.Op == token.MUL {
+			// a captured or spilled function variable: the cell it is read from
+			switch cell := f.X.(type) {
+			case *ssa.FreeVar:
+				return st.funcOfArg(cell)
+			case *ssa.Alloc:
+				return st.funcOfArg(cell)
+			}
+		}
+	case *ssa.Alloc:
+		var found *ssa.Function
+		for _, r := range *f.Referrers() {
+			if sto, ok := r.(*ssa.Store); ok && sto.Addr == f {
+				g := st.funcOfArg(sto.Val)
+				if g == nil || (found != nil && found != g) {
+					return nil
+				}
+				found = g
+			}
+		}
+		return found
 	}
 	if mc := st.closureOf(a, 0); mc != nil {
 		return mc.Fn.(*ssa.Function)
@@ -1342,6 +1450,22 @@ func (st *fstate) applyCallee(in ssa.CallInstruction, res ssa.Value, callee *ssa
 				}
 				cctx[i] = cfn
 			}
+		}
+	}
+	// function-typed captured variables of a closure being called
+	for j, b := range free {
+		pt, ok := b.Type().Underlying().(*types.Pointer)
+		if !ok {
+			continue
+		}
+		if _, isFn := pt.Elem().Underlying().(*types.Signature); !isFn {
+			continue
+		}
+		if cfn := st.funcOfArg(b); cfn != nil {
+			if cctx == nil {
+				cctx = funcCtx{}
+			}
+			cctx[len(callee.Params)+j] = cfn
 		}
 	}
 	ch := false
@@ -1460,13 +1584,15 @@ func (st *fstate) applyCallee(in ssa.CallInstruction, res ssa.Value, callee *ssa
 			}
 		}
 	}
-	for k, w := range cs.Links {
-		to := resolve(k.To)
-		from := resolve(k.From)
-		if os.Getenv("GV_FRAME_ORGS") == funcKey(st.fn) && k.Field == "SimpleNode.children" && len(from.Par) > 0 && len(to.Sites) > 0 {
-			fmt.Println("  APPLY link", k.Field, k.To, "<-", k.From, "resolved from", sumOf(from).String(), "callee", callee.String())
+	linkWitness := &Witness{Chain: []string{funcKey(callee)}}
+	for k, fromSum := range cs.Links {
+		to := resolve(k.Obj)
+		from := resolveSum(*fromSum, nil)
+		lw := cs.LinkWit[k]
+		if lw == nil {
+			lw = linkWitness
 		}
-		if st.store(k.Field, to, from, in.Pos(), w, true) {
+		if st.store(k.Field, to, from, in.Pos(), lw, true) {
 			ch = true
 		}
 	}
@@ -1505,6 +1631,32 @@ func (st *fstate) applyCallee(in ssa.CallInstruction, res ssa.Value, callee *ssa
 	return ch
 }
 
+// resliceBase: the pre-existing backing arrays that v certainly shares when v
+// is (a phi of) a re-slice s[i:j] - appending to such a value writes in place.
+func (st *fstate) resliceBase(v ssa.Value, depth int, seen map[ssa.Value]bool) Org {
+	if depth > 5 || seen[v] {
+		return Org{}
+	}
+	seen[v] = true
+	switch x := v.(type) {
+	case *ssa.Slice:
+		if _, isSlice := x.X.Type().Underlying().(*types.Slice); isSlice {
+			return st.org(x.X)
+		}
+	case *ssa.Phi:
+		r := Org{}
+		for _, e := range x.Edges {
+			r, _ = joinOrg(r, st.resliceBase(e, depth+1, seen))
+		}
+		return r
+	case *ssa.Call:
+		if b, ok := x.Call.Value.(*ssa.Builtin); ok && b.Name() == "append" {
+			return st.resliceBase(x.Call.Args[0], depth+1, seen)
+		}
+	}
+	return Org{}
+}
+
 func (st *fstate) builtinCall(in ssa.CallInstruction, b *ssa.Builtin, res ssa.Value) bool {
 	cm := in.Common()
 	switch b.Name() {
@@ -1540,7 +1692,17 @@ func (st *fstate) builtinCall(in ssa.CallInstruction, b *ssa.Builtin, res ssa.Va
 					ch = true
 				}
 			}
-			st.fa.assumptions["append into spare capacity is not counted as a write to the input slice's backing array"] = true
+			// appending to a slice that existed before the call may write its spare
+			// capacity in place (s[:0] and s[:i] re-slices make that certain)
+			st.fa.assumptions["append to a slice value that is not a re-slice is not counted as a write to its backing array (spare capacity is not observable through the old slice)"] = true
+			if nf := st.resliceBase(cm.Args[0], 0, map[ssa.Value]bool{}).nonFresh(); !nf.empty() {
+				w := st.witness(in.Pos(), nil)
+				before := len(st.sum.Writes)
+				st.addWrite(elemT, nf, w, st.locked[in.(ssa.Instruction)])
+				if len(st.sum.Writes) != before {
+					ch = true
+				}
+			}
 		}
 		return ch
 	case "copy":
@@ -1602,8 +1764,7 @@ func (fa *FrameAnalysis) externalSummary(fn *ssa.Function, s *Summary) {
 			s.Writes[WriteKey{"sync:" + shortRecv(fn), self}] = w
 		}
 		if strings.Contains(name, "sync.Map") && (fn.Name() == "Store" || fn.Name() == "LoadOrStore" || fn.Name() == "Swap") {
-			s.Links[LinkKey{"sync.Map", self, Obj{Region: 1}}] = w
-			s.Links[LinkKey{"sync.Map", self, Obj{Region: 2}}] = w
+			s.Links[WriteKey{"sync.Map", self}] = &SumOrg{Par: map[ParPath]bool{{1, ""}: true, {2, ""}: true}}
 		}
 		if strings.Contains(name, "sync.Map") && (fn.Name() == "Load" || fn.Name() == "LoadOrStore") {
 			s.Ret.join(SumOrg{Par: map[ParPath]bool{{0, "sync.Map"}: true}})
